@@ -1,6 +1,7 @@
 """C05 — Primitive values map to valid XSD lexical forms and back."""
 import base64 as _b64
 import itertools
+import json
 import math
 import re
 from decimal import Decimal
@@ -68,6 +69,13 @@ class Unregistered:
 
 
 TYPES["unregistered"] = Unregistered
+import datetime as _dt  # noqa: E402
+
+TYPES.update({
+    "XmlDuration": XmlDuration, "XmlPeriod": XmlPeriod, "XmlHexBinary": XmlHexBinary, "XmlBase64Binary": XmlBase64Binary,
+    "date": _dt.date, "time": _dt.time, "datetime": _dt.datetime,
+})
+PY_DT_TYPES = ("date", "time", "datetime")
 
 
 def enc_dec(d):
@@ -102,6 +110,20 @@ def enc_atom(v):
         return {"t": "date", "v": list(v)}
     if isinstance(v, XmlTime):
         return {"t": "time", "v": list(v)}
+    if isinstance(v, XmlDuration):
+        return {"t": "duration", "v": str(v)}
+    if isinstance(v, XmlPeriod):
+        return {"t": "period", "v": str(v)}
+    if isinstance(v, _dt.datetime):
+        if v.tzinfo is not None:
+            raise TypeError("aware datetime: outside the model")
+        return {"t": "pydatetime", "v": [v.year, v.month, v.day, v.hour, v.minute, v.second, v.microsecond]}
+    if isinstance(v, _dt.date):
+        return {"t": "pydate", "v": [v.year, v.month, v.day]}
+    if isinstance(v, _dt.time):
+        if v.tzinfo is not None:
+            raise TypeError("aware time: outside the model")
+        return {"t": "pytime", "v": [v.hour, v.minute, v.second, v.microsecond]}
     if isinstance(v, tuple):
         return {"t": "tuple", "v": [enc_atom(x) for x in v]}
     raise TypeError(f"cannot encode {v!r}")
@@ -131,6 +153,16 @@ def dec_atom(j):
         return XmlTime(*v)
     if t == "datetime":
         return XmlDateTime(*v)
+    if t == "duration":
+        return XmlDuration(v)
+    if t == "period":
+        return XmlPeriod(v)
+    if t == "pydate":
+        return _dt.date(*v)
+    if t == "pytime":
+        return _dt.time(*v)
+    if t == "pydatetime":
+        return _dt.datetime(*v)
     if t == "tuple":
         return tuple(dec_atom(x) for x in v)
     raise TypeError(t)
@@ -508,7 +540,7 @@ def rand_float(rng):
     if r < 0.5:
         return rng.uniform(-1000, 1000)
     if r < 0.7:
-        return float(f"{rng.choice(['', '-'])}{rng.random()}e{rng.randint(-330, 310)}")
+        return float(f"{rng.choice(['', '-'])}{rng.random():.17f}e{rng.randint(-330, 310)}")
     if r < 0.85:
         return float(rng.randint(-10**6, 10**6)) / rng.choice([1, 2, 4, 8, 10, 100])
     import struct
@@ -609,6 +641,7 @@ def gen_de(rng, tier):
     for c in gen_de_all(rng, tier):
         if not huge_exp_hazard(c):
             yield c
+    yield from gen_de_round_d(rng, tier)
 
 
 def gen_de_all(rng, tier):
@@ -620,10 +653,10 @@ def gen_de_all(rng, tier):
             yield de_case(s, [t])
         yield de_case(s, ["int", "float", "str"])
     # bounded-exhaustive small strings
-    for s in exhaustive("01.-e_ ", 4):
+    for s in exhaustive("01.-e_ ", 4 if quick else 5):
         for t in ("int", "float", "Decimal"):
             yield de_case(s, [t])
-    for s in exhaustive("+9E.N", 3 if quick else 40):
+    for s in exhaustive("+9E.N", 3 if quick else 5):
         for t in ("int", "float", "Decimal"):
             yield de_case(s, [t])
     for s in exhaustive("INFinfaAty", 3):
@@ -643,13 +676,13 @@ def gen_de_all(rng, tier):
         yield de_case(s, ["bytes"], KW(format="base64"))
         yield de_case(s, ["bytes"], KW(format=None))
         yield de_case(s, ["bytes"], KW(format="base32"))
-    for s in exhaustive("AQ/=w", 5 if quick else 60):
+    for s in exhaustive("AQ/=w", 5 if quick else 7):
         yield de_case(s, ["bytes"], KW(format="base64"))
     for s in exhaustive("Q= *", 4):
         yield de_case(s, ["bytes"], KW(format="base64"))
     for s in exhaustive("0aF g", 4):
         yield de_case(s, ["bytes"], KW(format="base16"))
-    for _ in range(300 if quick else 50000):
+    for _ in range(300 if quick else 12000):
         b = rand_bytes(rng)
         fmt = rng.choice(["base16", "base64"])
         s = ser_plain(b, KW(format=fmt))
@@ -669,14 +702,14 @@ def gen_de_all(rng, tier):
             yield de_case(s, ["QName"], KW(ns_map=m))
     for s in exhaustive("a:{}u 1", 4):
         yield de_case(s, ["QName"], KW(ns_map=[["u", "urn:u"], [None, "urn:d"]]))
-    for _ in range(300 if quick else 50000):
+    for _ in range(300 if quick else 12000):
         m = rng.choice(NS_MAPS)
         s = rng.choice(QNAME_HAND)
         for _ in range(rng.choice([0, 1, 1, 2])):
             s = mutate(rng, s, "a:{}u -#./_é́१1\n")
         yield de_case(pad(rng, s), ["QName"], KW(ns_map=m))
     # random valid values, serialised by the real code, optionally padded / mutated
-    for _ in range(1500 if quick else 300000):
+    for _ in range(1500 if quick else 60000):
         t = rng.choice(ATOM_TYPES)
         v = rand_atom(rng, t)
         kw = KW(format=rng.choice(["base16", "base64"])) if t == "bytes" else KW(ns_map=rng.choice(NS_MAPS)) if t == "QName" else KW()
@@ -698,7 +731,7 @@ def gen_de_all(rng, tier):
             for s in pool:
                 yield de_case(s, list(perm), KW(format="base16", ns_map=[["xs", "http://www.w3.org/2001/XMLSchema"]]))
                 yield {**de_case(s, list(perm), KW(format="base16", ns_map=[["xs", "http://www.w3.org/2001/XMLSchema"]])), "sort": True}
-    for _ in range(400 if quick else 80000):
+    for _ in range(400 if quick else 16000):
         k = rng.randint(0, 5)
         types = [rng.choice(ATOM_TYPES + ["unregistered"]) for _ in range(k)]
         if rng.random() < 0.3:
@@ -716,9 +749,9 @@ def gen_de_all(rng, tier):
         for s in ENUM_CTX_STRINGS:
             for kw in ENUM_CTX_KWS:
                 yield de_case(s, [{"enum": members}], kw)
-    for _ in range(100 if quick else 20000):
+    for _ in range(100 if quick else 4000):
         yield de_case(pad(rng, rng.choice(ENUM_CTX_STRINGS)), [{"enum": rng.choice(ENUM_SETS_CTX)}], rng.choice(ENUM_CTX_KWS))
-    for _ in range(400 if quick else 80000):
+    for _ in range(400 if quick else 16000):
         members = rand_enum(rng)
         if members is None:
             continue
@@ -768,6 +801,7 @@ def rand_enum(rng):
 
 
 def gen_ser(rng, tier):
+    yield from gen_ser_round_d(rng, tier)
     quick = tier == "quick"
     for v in FLOAT_EDGE:
         yield {"v": enc_atom(v), "kw": KW()}
@@ -801,7 +835,7 @@ def gen_ser(rng, tier):
     for members in ENUM_SETS:
         for m in members:
             yield {"v": {"t": "member", "v": m}, "kw": KW(format="base16", ns_map=[["u", "urn:u"]])}
-    for _ in range(1500 if quick else 300000):
+    for _ in range(1500 if quick else 60000):
         t = rng.choice(ATOM_TYPES)
         v = rand_atom(rng, t)
         kw = KW(format=rng.choice([None, "base16", "base64"])) if t == "bytes" else KW(ns_map=rng.choice(NS_MAPS)) if t == "QName" else KW()
@@ -819,6 +853,7 @@ def gen_test(rng, tier):
     for c in gen_test_all(rng, tier):
         if not huge_exp_hazard(c):
             yield c
+    yield from gen_test_round_d(rng, tier)
 
 
 def gen_test_all(rng, tier):
@@ -828,7 +863,7 @@ def gen_test_all(rng, tier):
         for t in ("int", "float", "Decimal", "bool", "str"):
             for strict in (True, False):
                 yield {**de_case(s, [t]), "strict": strict}
-    for _ in range(600 if quick else 100000):
+    for _ in range(600 if quick else 24000):
         t = rng.choice(["int", "float", "Decimal", "bool"])
         v = rand_atom(rng, t)
         s = ser_plain(v)
@@ -850,7 +885,7 @@ def gen_sort(rng, tier):
     for a, b in itertools.permutations(names, 2):
         yield {"names": [a, b]}
     yield {"names": []}
-    for _ in range(800 if tier == "quick" else 100000):
+    for _ in range(800 if tier == "quick" else 32000):
         k = rng.randint(2, 8)
         yield {"names": [rng.choice(names) for _ in range(k)]}
     for _ in range(100):
@@ -865,6 +900,7 @@ def gen_type_converter(rng, tier):
 
 
 def gen_from_value(rng, tier):
+    yield from gen_from_value_round_d(rng, tier)
     for b in (2**15, 2**31, 2**63):
         for d in (-2, -1, 0, 1, 2):
             yield {"v": enc_atom(b + d)}
@@ -874,20 +910,31 @@ def gen_from_value(rng, tier):
         yield {"v": enc_atom(v)}
     for v in FLOAT_EDGE:
         yield {"v": enc_atom(v)}
-    for _ in range(600 if tier == "quick" else 100000):
+    for _ in range(600 if tier == "quick" else 24000):
         yield {"v": enc_atom(rand_atom(rng, rng.choice(["int", "float", "float", "bool", "Decimal", "bytes"])))}
 
 
 def gen_float_lit(rng, tier):
     for s in NUM_HAND:
         yield {"s": s}
-    for s in exhaustive("1.e-_ 0", 5 if tier == "quick" else 60):
+    for s in exhaustive("1.e-_ 0", 5 if tier == "quick" else 7):
         yield {"s": s}
-    for _ in range(800 if tier == "quick" else 200000):
+    for _ in range(800 if tier == "quick" else 32000):
         s = repr(rand_float(rng))
         for _ in range(rng.choice([0, 1, 1, 2])):
             s = mutate(rng, s, "0123456789+-.eE_ infa٣")
         yield {"s": pad(rng, s)}
+    # literals generated from the grammar float() accepts (so that accepted inputs are not a small minority)
+    for _ in range(12000 if tier == "quick" else 480000):
+        dig = lambda n: "_".join("".join(rng.choice("0123456789٣") for _ in range(rng.randint(1, 4))) for _ in range(n))  # noqa: E731
+        ip = dig(rng.randint(1, 3)) if rng.random() < 0.85 else ""
+        fp = dig(rng.randint(1, 2)) if rng.random() < 0.6 or not ip else ""
+        s = rng.choice(["", "", "+", "-"]) + ip + ("." + fp if fp or rng.random() < 0.2 else "")
+        if rng.random() < 0.5:
+            s += rng.choice("eE") + rng.choice(["", "+", "-"]) + dig(1)
+        if rng.random() < 0.05:
+            s = rng.choice(["inf", "-Infinity", "NAN", "+nan", "iNf"])
+        yield {"s": pad(rng, s) if rng.random() < 0.3 else s}
 
 
 def gen_split_qname(rng, tier):
@@ -911,7 +958,7 @@ def gen_is_ncname(rng, tier):
     alpha = "a_1-.: é́·٣²"
     for s in exhaustive(alpha, 3):
         yield {"s": s}
-    for _ in range(500 if tier == "quick" else 50000):
+    for _ in range(500 if tier == "quick" else 20000):
         yield {"s": "".join(chr(rng.choice([rng.randint(0, 0x250), rng.randint(0x300, 0x3ff), rng.randint(0x900, 0x97f), rng.randint(0x2000, 0x2200), rng.randint(0, 0x2FFFF)])) for _ in range(rng.randint(1, 3)))}
 
 
@@ -932,7 +979,7 @@ def gen_is_uri(rng, tier):
         yield {"s": s}
     for s in ["http://www.w3.org/2000/09/xmldsig#", "http://www.w3.org/1999/02/22-rdf-syntax-ns#", "a-b:c", "a+b-c.d:e", "-a:b", "a,b#c,d", "a#b,c-d", "a\\b", "a^b#c", "a#b^c", "a#b]c", "a#b\\c"]:
         yield {"s": s}
-    for _ in range(300 if tier == "quick" else 50000):
+    for _ in range(300 if tier == "quick" else 12000):
         n = rng.randint(1, 6)
         yield {"s": "".join(rng.choice(["a", "Z", "0", "-", ",", ".", "/", ":", "#", "%", "~", "\\", "^", "]", "_", " ", "\n", chr(rng.randint(0x80, 0x2FFF)), chr(rng.randint(0, 0x10FFFF))]) for _ in range(n)).encode("utf-8", "surrogatepass").decode("utf-8", "replace")}
 
@@ -946,6 +993,260 @@ def gen_text_split(rng, tier):
 # ---------------------------------------------------------------------------
 # classification (distribution buckets in evidence/C05.json)
 # ---------------------------------------------------------------------------
+
+# ---------------------------------------------------------------------------
+# round d: date/time/datetime with formats, XmlDuration/XmlPeriod, wrapper classes,
+# exact float repr
+# ---------------------------------------------------------------------------
+DT_FORMATS = [
+    "%Y-%m-%d", "%H:%M:%S", "%Y-%m-%dT%H:%M:%S", "%Y-%m-%dT%H:%M:%S.%f", "%d/%m/%Y", "%Y%m%d", "%H%M%S%f", "%d.%m.%Y %H:%M",
+    "%m%d", "%Y", "%H:%M:%S.%f", "%S", "%Y-%m-%d %H:%M:%S", "%%%Y", "%d %m  %Y", "T%H", "%Y-%m-%dZ", "%Y-%m-%d\t%H", "(%Y)[%m]", "%m-%d", "%M", "%f",
+    "%H.%M", "%Y+%m", "%d%m%Y", "%Y %m %d", " %Y", "%Y ", "x%dx",
+]
+DT_BAD_FORMATS = ["%Q", "%", "%Y%Y", "%Y-%", "% Y", "%.", "", "%Y-%m-%d%", "%k", "%-d", "%é", "%d%d"]
+DT_HAND = [
+    "2000-01-02", "2000-1-2", " 2000-01-02", "2000-01-02 ", "2000-02-30", "2000-02-29", "1900-02-29", "0000-01-01", "0001-01-01", "9999-12-31", "999-01-02",
+    "01:02:03", "1:2:3", "24:00:00", "23:59:60", "23:59:61", "00:00:00", "2000-01-02T03:04:05", "2000-01-02t03:04:05", "2000-01-02T03:04:05.5", "2000-01-02T03:04:05.123456",
+    "2000-01-02T03:04:05.1234567", "٢٠٠٠-01-02", "2000-٠١-02", "2000-01-0٢", "20000102", "2000012", "200001023", "0229", "229", "1231", "131", "31/12/1999", " 5/12/1999",
+    "5/12/1999", "05/ 5/1999", "31.12.1999 23:59", "31.12.1999  23:59", "31.12.1999\t23:59", "%2000", "2000", "20000", "200", "12", "1", "60", "61", "59", "0", "", " ",
+    "(2000)[12]", "T5", "t23", "T24", "2000-01-02Z", "2000-01-02z", "x5x", "X31X", "x32x", "2000+1", "2000 1 2", "2000  1  2", "02-29", "2-29", "123456", "1234567",
+    "010203000004", "0102030", "2000-01-02 03:04:05", "2000-01-0203:04:05",
+]
+
+
+def rand_py_dt(rng, t):
+    y = rng.choice([1, 9, 10, 99, 100, 999, 1000, 1900, 1904, 2000, 2024, 9999, rng.randint(1, 9999)])
+    m = rng.randint(1, 12)
+    d = rng.randint(1, 28) if rng.random() < 0.8 else _dt.date(y, m, 1).replace(day=28).day
+    us = rng.choice([0, 0, 1, 10, 4500, 100000, 123456, 999999, rng.randint(0, 999999)])
+    if t == "date":
+        return _dt.date(y, m, d)
+    if t == "time":
+        return _dt.time(rng.randint(0, 23), rng.randint(0, 59), rng.randint(0, 59), us)
+    return _dt.datetime(y, m, d, rng.randint(0, 23), rng.randint(0, 59), rng.randint(0, 59), us)
+
+
+def rand_dt_format(rng):
+    r = rng.random()
+    if r < 0.55:
+        return rng.choice(DT_FORMATS)
+    if r < 0.65:
+        return rng.choice(DT_BAD_FORMATS)
+    dirs = ["%Y", "%m", "%d", "%H", "%M", "%S", "%f", "%%"]
+    rng.shuffle(dirs)
+    lits = ["-", ":", "T", " ", "/", ".", "  ", "", "", "", "x", "1", "(", "+", "[", "Z"]
+    out = rng.choice(lits)
+    for d in dirs[: rng.randint(0, 6)]:
+        out += d + rng.choice(lits)
+    return out
+
+
+def gen_de_round_d(rng, tier):
+    from props import c06
+
+    quick = tier == "quick"
+    # every hand string x every hand format x the three stdlib types
+    for f in DT_FORMATS + DT_BAD_FORMATS + [None]:
+        for s in DT_HAND if (not quick or f in DT_FORMATS[:8] + DT_BAD_FORMATS[:4] + [None]) else DT_HAND[::5]:
+            for t in PY_DT_TYPES:
+                yield de_case(s, [t], KW(format=f))
+    for _ in range(4000 if quick else 160000):
+        t = rng.choice(PY_DT_TYPES)
+        f = rand_dt_format(rng)
+        v = rand_py_dt(rng, "datetime")
+        try:
+            s = v.strftime(f)
+        except Exception:  # noqa: BLE001
+            s = rng.choice(DT_HAND)
+        r = rng.random()
+        if r < 0.2:
+            for _ in range(rng.randint(1, 2)):
+                s = mutate(rng, s, "0123456789 -:T٣t.x/")
+        elif r < 0.3:
+            s = s.replace("0", "", 1)
+        elif r < 0.35:
+            s = pad(rng, s)
+        types = [t] if rng.random() < 0.8 else [rng.choice(PY_DT_TYPES + ("int", "str", "XmlDate")) for _ in range(rng.randint(2, 3))]
+        c = de_case(s, types, KW(format=f))
+        if len(types) > 1 and rng.random() < 0.5:
+            c["sort"] = True
+        yield c
+    # XmlDuration / XmlPeriod / wrapper classes as field types
+    for s in c06.DUR_HAND:
+        yield de_case(s.replace("\\n", "\n"), ["XmlDuration"])
+        yield de_case(s.replace("\\n", "\n"), ["XmlPeriod", "XmlDuration", "str"])
+    for s in c06.PERIOD_HAND:
+        yield de_case(s, ["XmlPeriod"])
+        yield {**de_case(s, ["str", "XmlPeriod", "int", "XmlDate"]), "sort": True}
+    gens = [c06.gen_dur(rng, "quick"), c06.gen_period(rng, "quick")]
+    for i, g in enumerate(gens):
+        for k, c in enumerate(g):
+            if quick and k > 500:
+                break
+            yield de_case(pad(rng, c["s"]), ["XmlDuration" if i == 0 else "XmlPeriod"])
+    for s in B64_HAND + HEX_HAND:
+        for t in ("XmlHexBinary", "XmlBase64Binary"):
+            for f in (None, "base16", "base64", "base32"):
+                yield de_case(s, [t], KW(format=f))
+
+
+def fmt_ser_supported(f):
+    """strftime formats inside the model: every % introduces a numeric directive or %%
+    (what glibc does with an unknown conversion is not modelled)"""
+    return f is None or re.fullmatch(r"(?:[^%]|%[YmdHMSf%])*", f) is not None
+
+
+def gen_ser_round_d(rng, tier):
+    for c in gen_ser_round_d_all(rng, tier):
+        if fmt_ser_supported(c["kw"].get("format")) or c["v"]["t"] not in ("pydate", "pytime", "pydatetime"):
+            yield c
+
+
+def gen_ser_round_d_all(rng, tier):
+    quick = tier == "quick"
+    for f in DT_FORMATS + DT_BAD_FORMATS + [None]:
+        for v in [_dt.date(999, 1, 2), _dt.date(1, 1, 1), _dt.date(2020, 2, 29), _dt.time(1, 2, 3, 4500), _dt.time(0, 0, 0), _dt.datetime(2000, 1, 2, 3, 4, 5, 6),
+                  _dt.datetime(9999, 12, 31, 23, 59, 59, 999999), _dt.datetime(1000, 10, 10, 10, 10, 10, 100000)]:
+            yield {"v": enc_atom(v), "kw": KW(format=f)}
+    for _ in range(600 if quick else 24000):
+        t = rng.choice(PY_DT_TYPES)
+        yield {"v": enc_atom(rand_py_dt(rng, t)), "kw": KW(format=rand_dt_format(rng))}
+    for s in ["P1D", "P2Y6M5DT12H35M30.5S", "-P1Y", "PT0.5S"]:  # "P١D" is not a value any more since /repo f68a32b (ascii digits only)
+        yield {"v": {"t": "duration", "v": s}, "kw": KW()}
+    for s in ["2001", "2001-10", "--10", "--10-31", "---31", "2001Z", "--10+02:00", "-2001", "12345-10"]:
+        yield {"v": {"t": "period", "v": s}, "kw": KW()}
+        yield {"v": {"t": "list", "v": [{"t": "period", "v": s}, {"t": "duration", "v": "P1D"}]}, "kw": KW()}
+
+
+def gen_test_round_d(rng, tier):
+    for s in ["2001", " 2001 ", "2001-10", "--10", "---31\n", "2001-13", "P1D", " P1D", "x"]:
+        for t in ("XmlPeriod", "XmlDuration"):
+            for strict in (True, False):
+                yield {**de_case(s, [t]), "strict": strict}
+    for f in DT_FORMATS[:6]:
+        for s in DT_HAND[:30]:
+            for strict in (True, False):
+                yield {**de_case(s, [rng.choice(PY_DT_TYPES)], KW(format=f)), "strict": strict}
+
+
+def gen_from_value_round_d(rng, tier):
+    for s in ["2001", "2001-10", "--10", "--10-31", "---31", "2001Z", "--10+02:00", "-2001", "12345-10", "--05--", "0000"]:
+        try:
+            XmlPeriod(s)
+        except ValueError:
+            continue
+        yield {"v": {"t": "period", "v": s}}
+    yield {"v": {"t": "duration", "v": "P1D"}}
+    for t in PY_DT_TYPES:
+        yield {"v": enc_atom(rand_py_dt(rng, t))}
+
+
+def impl_float_repr(a):
+    try:
+        return ok(repr(float(a["s"])))
+    except ValueError:
+        return err("ValueError")
+
+
+def gen_float_repr(rng, tier):
+    import struct
+
+    quick = tier == "quick"
+    for s in NUM_HAND:
+        yield {"s": s}
+    # all floats with <= 3 significant digits x exponents -330..310 (thorough); a lattice of them (quick)
+    step_m, step_e = (37, 11) if quick else (1, 1)
+    off_m, off_e = rng.randrange(step_m), rng.randrange(step_e)
+    for m in range(1 + off_m, 1000, step_m):
+        for e in range(-330 + off_e, 311, step_e):
+            yield {"s": f"{m}e{e}"}
+    for m in (1, 2, 5, 9, 10, 99, 100, 999):
+        for e in range(-330, 311):
+            yield {"s": f"{m}e{e}"}
+    if not quick:
+        # four significant digits on a lattice of exponents
+        off = rng.randrange(3)
+        for m in range(1000, 10000):
+            for e in range(-331 + off, 308, 3):
+                yield {"s": f"{m}e{e}"}
+    # powers of two and their neighbours, halfway cases between adjacent doubles, subnormals, the overflow threshold
+    for k in list(range(-1075, -1060)) + list(range(-1030, -1015)) + list(range(-5, 70)) + list(range(1015, 1025)):
+        x = Fraction(2) ** k
+        for num in (x, x * (1 + Fraction(1, 2**53)), x * (1 - Fraction(1, 2**54)), x * (1 + Fraction(3, 2**53)), x * (1 + Fraction(1, 2**52))):
+            d = Decimal(num.numerator) / Decimal(num.denominator) if False else None
+            n, dd = num.numerator, num.denominator
+            # exact decimal expansion of a dyadic rational
+            sh = max(dd.bit_length() - 1, 0)
+            yield {"s": f"{n * 5**sh}e-{sh}"}
+    for s in ["1.7976931348623157e308", "1.7976931348623158e308", "1.797693134862315807e308", "1.797693134862315808e308", "1.7976931348623159e308",
+              "4.9406564584124654e-324", "2.4703282292062327e-324", "2.4703282292062328e-324", "2.47032822920623272e-324", "9007199254740993", "9007199254740992.5",
+              "9007199254740993.000000000000000000001", "0.1", "0.2", "0.3", "1e23", "8.41e21", "2.2250738585072011e-308", "2.2250738585072014e-308", "5e-324", "3e-324", "2e-324"]:
+        yield {"s": s}
+        yield {"s": "-" + s}
+    for _ in range(3000 if quick else 600000):
+        r = rng.random()
+        if r < 0.5:
+            x = struct.unpack("<d", struct.pack("<Q", rng.getrandbits(64)))[0]
+            s = repr(x)
+            if r < 0.1:
+                s = mutate(rng, s, "0123456789e-.")
+        elif r < 0.8:
+            nd = rng.randint(1, 25)
+            s = f"{rng.randint(1, 10**nd)}e{rng.randint(-340, 310)}"
+        else:
+            s = f"{rng.randint(0, 10**6)}.{rng.randint(0, 10**rng.randint(1, 20))}"
+        yield {"s": s}
+
+
+def classify_float_repr(a, o):
+    if "err" in o:
+        return "err"
+    r = o["ok"]
+    if r in ("inf", "-inf", "nan"):
+        return "special"
+    if r.strip("-") == "0.0":
+        return "zero"
+    return ("exp" if "e" in r else "fixed") + ":" + str(min(len(r.replace("-", "").replace(".", "").split("e")[0].strip("0")), 17) // 6 * 6) + "+digits"
+
+
+def impl_strptime(a):
+    try:
+        d = _dt.datetime.strptime(a["s"], a["fmt"])
+    except Exception:  # noqa: BLE001  (ValueError, re.error: DateTimeBase.parse turns every exception into ConverterError)
+        return err("ValueError")
+    if d.tzinfo is not None:
+        return err("HARNESS:aware")
+    return ok([d.year, d.month, d.day, d.hour, d.minute, d.second, d.microsecond])
+
+
+def impl_strftime(a):
+    try:
+        return ok(_dt.datetime(*a["v"]).strftime(a["fmt"]))
+    except Exception:  # noqa: BLE001
+        return err("ValueError")
+
+
+def gen_strptime(rng, tier):
+    for c in gen_de_round_d(rng, tier):
+        if c["kw"]["format"] is not None and any(t in PY_DT_TYPES for t in c["types"] if isinstance(t, str)):
+            yield {"s": c["s"], "fmt": c["kw"]["format"]}
+
+
+def gen_strftime(rng, tier):
+    for c in gen_ser_round_d(rng, tier):
+        v = c["v"]
+        if c["kw"]["format"] is None or v["t"] not in ("pydate", "pytime", "pydatetime"):
+            continue
+        x = v["v"]
+        full = x + [0, 0, 0, 0] if v["t"] == "pydate" else [1900, 1, 1] + x if v["t"] == "pytime" else x
+        yield {"v": full, "fmt": c["kw"]["format"]}
+
+
+def classify_strptime(a, o):
+    n = a["fmt"].count("%")
+    return f"dirs{min(n, 4)}->" + ("err" if "err" in o else "ok")
+
+
 def _tyname(t):
     return t if isinstance(t, str) else "enum"
 
@@ -974,21 +1275,61 @@ def classify_test(a, o):
     return f"{_tyname(a['types'][0]) if len(a['types']) == 1 else 'list'}:{'strict' if a['strict'] else 'lax'}->{o.get('ok')}"
 
 
+def classify_sort(a, o):
+    names = a["names"]
+    keys = [DOC_PRIORITY.index(n) + 1 if n in DOC_PRIORITY else 0 for n in names]
+    return f"n{min(len(names), 5)}:{'ties' if len(set(keys)) < len(keys) else 'distinct'}:{'sorted' if keys == sorted(keys) else 'unsorted'}" + (":object" if "object" in names else "")
+
+
+def classify_bool(a, o):
+    s = a.get("s")
+    kind = "none" if s is None else "empty" if s == "" else "ascii" if s.isascii() else "unicode"
+    return f"{kind}->{o.get('ok', o.get('err'))}"
+
+
+def classify_split_qname(a, o):
+    if "err" in o:
+        return "err"
+    return ("brace" if a["s"].startswith("{") else "plain") + "->" + ("ns" if o["ok"][0] is not None else "no-ns")
+
+
+def classify_text_split(a, o):
+    return ("sep" if a["sep"] in a["s"] else "nosep") + "->" + ("pair" if o["ok"][0] is not None else "single")
+
+
+def classify_strftime(a, o):
+    ds = dt_directives(a["fmt"])
+    return f"dirs{min(len(ds), 4)}" + (":Y<1000" if "Y" in ds and a["v"][0] < 1000 else "") + (":f" if "f" in ds else "")
+
+
+def classify_float_lit(a, o):
+    if "err" in o:
+        return "err"
+    r = o["ok"]
+    s = a["s"]
+    feat = ("us" if "_" in s else "") + ("exp" if "e" in s.lower() and r not in ("inf", "-inf", "nan") else "") + ("uni" if not s.isascii() else "") + ("ws" if s != s.strip() else "")
+    return ("special" if r in ("inf", "-inf", "nan") else "finite") + (":" + feat if feat else "")
+
+
 CORRS = [
     Corr("conv.de", gen_de, impl_de, nontrivial=lambda a, o: len(a["s"]) > 0 and len(a["types"]) > 0, classify=classify_de,
          describe="ConverterFactory.deserialize(str, types, format=, ns_map=) vs model"),
     Corr("conv.ser", gen_ser, impl_ser, classify=classify_ser, describe="ConverterFactory.serialize(value, format=, ns_map=) incl. the mutated ns_map"),
     Corr("conv.test", gen_test, impl_test, classify=classify_test, describe="ConverterFactory.test(str, types, strict)"),
-    Corr("conv.sort", gen_sort, impl_sort, nontrivial=lambda a, o: len(a["names"]) > 1, describe="ConverterFactory.sort_types"),
+    Corr("conv.sort", gen_sort, impl_sort, nontrivial=lambda a, o: len(a["names"]) > 1, classify=classify_sort, describe="ConverterFactory.sort_types"),
     Corr("conv.type_converter", gen_type_converter, impl_type_converter, compare=cmp_type_converter, describe="registry + MRO lookup on real classes"),
     Corr("conv.from_value", gen_from_value, impl_from_value, classify=lambda a, o: a["v"]["t"] + "->" + str(o.get("ok")), describe="DataType.from_value(value).code"),
-    Corr("conv.float_lit", gen_float_lit, impl_float_lit, compare=cmp_float_lit, nontrivial=lambda a, o: len(a["s"]) > 1,
+    Corr("conv.float_lit", gen_float_lit, impl_float_lit, compare=cmp_float_lit, classify=classify_float_lit, nontrivial=lambda a, o: len(a["s"]) > 1,
          describe="float(str) grammar: exact decimal read by the model, correctly rounded, vs repr(float(s))"),
-    Corr("ns.split_qname", gen_split_qname, impl_split_qname, compare=cmp_split_qname),
+    Corr("conv.float_repr", gen_float_repr, impl_float_repr, classify=classify_float_repr, nontrivial=lambda a, o: "ok" in o,
+         describe="repr(float(s)) computed exactly in Lean (round-half-even to binary64, shortest repr) vs CPython"),
+    Corr("conv.strptime", gen_strptime, impl_strptime, classify=classify_strptime, describe="datetime.strptime for numeric directives vs the regex-order matcher"),
+    Corr("conv.strftime", gen_strftime, impl_strftime, classify=classify_strftime, describe="strftime (glibc: %Y unpadded) for numeric directives"),
+    Corr("ns.split_qname", gen_split_qname, impl_split_qname, compare=cmp_split_qname, classify=classify_split_qname),
     Corr("ns.build_qname", gen_build_qname, impl_build_qname),
-    Corr("ns.is_ncname", gen_is_ncname, impl_is_ncname),
-    Corr("ns.is_uri", gen_is_uri, impl_is_uri),
-    Corr("text.split", gen_text_split, impl_text_split),
+    Corr("ns.is_ncname", gen_is_ncname, impl_is_ncname, classify=classify_bool),
+    Corr("ns.is_uri", gen_is_uri, impl_is_uri, classify=classify_bool),
+    Corr("text.split", gen_text_split, impl_text_split, classify=classify_text_split),
 ]
 
 # ---------------------------------------------------------------------------
@@ -1266,6 +1607,10 @@ def _eq(a, b):
 
 def lexical_ok(v, s, kw):
     """is s a valid XSD lexical form of the datatype matching python value v?"""
+    if isinstance(v, XmlDuration):
+        return bool(RX["XmlDuration"].match(s))
+    if isinstance(v, XmlPeriod):
+        return bool(RX["XmlPeriod"].match(s))
     if isinstance(v, bool):
         return bool(RX["bool"].match(s))
     if isinstance(v, int):
@@ -1290,6 +1635,38 @@ def qname_parts(text):
         u, _, l = text[1:].partition("}")
         return (u or None), l
     return None, text
+
+
+def dt_directives(f):
+    out = []
+    i = 0
+    while i < len(f):
+        if f[i] == "%" and i + 1 < len(f):
+            out.append(f[i + 1])
+            i += 2
+        else:
+            i += 1
+    return [d for d in out if d != "%"]
+
+
+def dt_format_covers(val, f):
+    """a format under which the value can be expected to round-trip: numeric directives only,
+    each component of the value mentioned exactly once"""
+    if not isinstance(f, str) or not fmt_ser_supported(f) or f.endswith("%") and not f.endswith("%%"):
+        return False
+    ds = dt_directives(f)
+    if len(set(ds)) != len(ds):
+        return False
+    need = set()
+    if isinstance(val, _dt.date):
+        need |= {"Y", "m", "d"}
+    if isinstance(val, (_dt.time, _dt.datetime)):
+        need |= {"H", "M", "S"}
+        if val.microsecond:
+            need.add("f")
+    if isinstance(val, _dt.time) and not isinstance(val, _dt.datetime) and set(ds) & {"Y", "m", "d"}:
+        return False
+    return need <= set(ds)
 
 
 def oracle_roundtrip(a):
@@ -1328,6 +1705,11 @@ def oracle_roundtrip(a):
         return None
     if isinstance(val, (XmlDate, XmlTime, XmlDateTime)):
         return None  # C06
+    if isinstance(val, (XmlDuration, XmlPeriod)) and not RX[type(val).__name__].match(str(val)):
+        return None  # built from a non-XSD spelling that the class tolerates (C06's leniency): str() echoes it
+    if isinstance(val, (_dt.date, _dt.time)):
+        if member is not None or not dt_format_covers(val, kw.get("format")):
+            return None  # the format must mention every component of the value exactly once
     try:
         s = converter.serialize(v, **kwargs)
     except Exception as e:  # noqa: BLE001
@@ -1383,7 +1765,15 @@ def oracle_from_value(a):
         if code == "float" and not (abs(v) <= 3.4028235677973366e38):
             return f"from_value({v!r}) = float but the value is outside xs:float's range"
         return None
-    exp = {Decimal: "decimal", str: "string", QName: "QName", XmlHexBinary: "hexBinary", XmlBase64Binary: "base64Binary", XmlDate: "date", XmlTime: "time", XmlDateTime: "dateTime"}.get(type(v))
+    if isinstance(v, XmlPeriod):
+        # the datatype whose lexical space the text belongs to (XSD 1.1 Part 2 §3.3.9-3.3.14)
+        t = re.sub(r"(Z|[+-][0-9]{2}:[0-9]{2})\Z", "", str(v))
+        exp = ("gDay" if re.fullmatch(r"---[0-9]{2}", t) else "gMonthDay" if re.fullmatch(r"--[0-9]{2}-[0-9]{2}", t)
+               else "gMonth" if re.fullmatch(r"--[0-9]{2}(--)?", t) else "gYearMonth" if re.fullmatch(r"-?[0-9]{4,}-[0-9]{2}", t)
+               else "gYear" if re.fullmatch(r"-?[0-9]{4,}", t) else None)
+        return None if exp is None or code == exp else f"from_value({v!r}) = {code}, its lexical form is a {exp}"
+    exp = {Decimal: "decimal", str: "string", QName: "QName", XmlHexBinary: "hexBinary", XmlBase64Binary: "base64Binary", XmlDate: "date", XmlTime: "time", XmlDateTime: "dateTime",
+           XmlDuration: "duration"}.get(type(v))
     if exp and code != exp:
         return f"from_value({v!r}) = {code}, expected {exp}"
     return None
@@ -1415,6 +1805,8 @@ def oracle_test(a):
     except ConverterError:
         return "test() is True but deserialize fails" if res else None
     special = isinstance(v, float) and (math.isnan(v) or math.isinf(v))
+    if special and not res:
+        return f"test({s!r}, [float], strict) is False for an accepted spelling of a special value (documented: always True)"
     canon = converter.serialize(v)
     if res and not special and canon != s.strip():
         return f"test({s!r}, [{t.__name__}], strict) is True but serialize gives {canon!r}"
@@ -1510,6 +1902,8 @@ def covered_roundtrip(a, msg):
     v = a["v"]
     kw = a["kw"]
     inner = v["v"] if v["t"] == "member" else v
+    if inner["t"] in ("pydate", "pydatetime") and inner["v"][0] < 1000 and "Y" in dt_directives(kw.get("format") or ""):
+        return "C05-strftime-year"
     if inner["t"] == "qname":
         ns, local = qname_parts(inner["v"])
         if _is_marked_name(local):
@@ -1597,6 +1991,51 @@ def gen_o_helpers(rng, tier):
     yield from gen_split_qname(rng, "quick")
 
 
+def gen_history(rng, tier):
+    """sequences of calls on the same objects (same enum classes, same converter, same ns_map dicts)"""
+    n = 300 if tier == "quick" else 4500
+    for _ in range(n):
+        r = rng.random()
+        calls = []
+        if r < 0.4:
+            members = rng.choice(ENUM_SETS_CTX)
+            for _ in range(rng.randint(3, 7)):
+                calls.append({"op": "de", "s": rng.choice(ENUM_CTX_STRINGS), "types": [{"enum": members}], "kw": rng.choice(ENUM_CTX_KWS)})
+        elif r < 0.7:
+            members = rng.choice(ENUM_SETS)
+            for _ in range(rng.randint(3, 7)):
+                calls.append({"op": "de", "s": rng.choice(ENUM_STRINGS), "types": [{"enum": members}] + rng.choice([[], ["str"], ["int"]]),
+                              "kw": KW(format=rng.choice(["base16", "base64", None]), ns_map=rng.choice(NS_MAPS))})
+        else:
+            for _ in range(rng.randint(3, 7)):
+                k = rng.random()
+                if k < 0.4:
+                    calls.append({"op": "ser", "v": {"t": "qname", "v": rng.choice(QNAME_VALUES)}, "kw": KW(ns_map=rng.choice(NS_MAPS))})
+                elif k < 0.7:
+                    calls.append({"op": "de", "s": rng.choice(QNAME_HAND), "types": ["QName"], "kw": KW(ns_map=rng.choice(NS_MAPS))})
+                else:
+                    t = rng.choice(PY_DT_TYPES)
+                    calls.append({"op": "de", "s": rng.choice(DT_HAND), "types": [t], "kw": KW(format=rng.choice(DT_FORMATS))})
+        yield {"calls": calls}
+
+
+def _run_call(c):
+    if c["op"] == "de":
+        return impl_de({"s": c["s"], "types": c["types"], "kw": c["kw"]})
+    return impl_ser({"v": c["v"], "kw": c["kw"]})
+
+
+def oracle_history(a):
+    """a call's result does not depend on which calls were made before it on the same objects"""
+    calls = a["calls"]
+    first = [_run_call(c) for c in calls]
+    second = list(reversed([_run_call(c) for c in reversed(calls)]))
+    for c, x, y in zip(calls, first, second):
+        if x != y:
+            return f"call {json.dumps(c, ensure_ascii=False)[:200]} gave {x} in the sequence and {y} when the sequence was replayed backwards"
+    return None
+
+
 ORACLES = [
     Oracle("c05.roundtrip", gen_o_roundtrip, oracle_roundtrip, covered=covered_roundtrip, from_ops=("conv.ser",)),
     Oracle("c05.accepts", gen_o_accepts, oracle_accepts, covered=covered_accepts, from_ops=("conv.de", "conv.test"), adapt=adapt_accepts),
@@ -1605,6 +2044,7 @@ ORACLES = [
     Oracle("c05.from_value", gen_from_value, oracle_from_value, from_ops=("conv.from_value",)),
     Oracle("c05.registry", gen_type_converter, oracle_registry, from_ops=("conv.type_converter",)),
     Oracle("c05.is_uri", gen_is_uri, oracle_is_uri, from_ops=("ns.is_uri",)),
+    Oracle("c05.history", gen_history, oracle_history),
     Oracle("c05.helpers", gen_o_helpers, oracle_helpers, covered=covered_helpers, from_ops=("ns.is_ncname", "ns.split_qname")),
 ]
 
@@ -1627,19 +2067,34 @@ def f_ncname_marks():
     return False, "accepted"
 
 
+def f_strftime_year():
+    d = _dt.date(999, 1, 2)
+    s = converter.serialize(d, format="%Y-%m-%d")
+    try:
+        back = converter.deserialize(s, [_dt.date], format="%Y-%m-%d")
+    except ConverterError:
+        return True, f"serialize(date(999, 1, 2), format='%Y-%m-%d') = {s!r}, which deserialize rejects with the same format"
+    return back != d, f"{s!r} -> {back!r}"
+
+
 FINDINGS = {
+    "C05-strftime-year": f_strftime_year,
     "C05-qname-default-ns": f_default_ns,
     "C05-ncname-unicode": f_ncname_marks,
 }
 
 LEVEL_TEXT = (
-    "Lean theorems over all values / all strings for the Bool, Int, Bytes (base16/base64), Decimal, QName, Enum converters, "
-    "sort_types / deserialize priority, type_converter and int_datatype (Props/C05.lean), with the model tied to /repo by a "
-    "differential check of ConverterFactory.deserialize/serialize/test/sort_types/type_converter, DataType.from_value and the "
-    "namespaces helpers on hand-picked, bounded-exhaustive, random and malformed inputs."
+    "Lean theorems over all values / all strings for the Bool, Int, Bytes (base16/base64, wrapper classes, missing formats), Decimal, Float "
+    "(exact binary64 rounding and shortest repr computed in the model; the repr always has the shape the canonical-spelling theorems need), "
+    "QName, Enum, the XmlDate/XmlTime/XmlDateTime/XmlDuration/XmlPeriod proxies, date/time/datetime with strptime/strftime formats "
+    "(%Y-%m-%d, %H:%M:%S, %Y-%m-%dT%H:%M:%S), sort_types / deserialize priority over every table type, type_converter, test(strict) soundness and "
+    "DataType.from_value against the lexical spaces (Props/C05.lean, C05Types.lean, C05Float.lean, C05Dates.lean), with the model tied to /repo by a "
+    "differential check of ConverterFactory.deserialize/serialize/test/sort_types/type_converter, DataType.from_value, float(str)/repr(float), "
+    "strptime/strftime and the namespaces helpers on hand-picked, bounded-exhaustive, random and malformed inputs."
 )
 LEVEL_NOTE = (
-    "Trusted: Lean kernel; hand models of CPython int()/float() grammar/Decimal()/format 'f'/binascii/strip/split; "
-    "XSD lexical grammar transcriptions; CPython float rounding and repr as hypotheses; the sampling correspondence check. "
-    "XmlDuration/XmlPeriod/datetime converters are not modelled (oracle only)."
+    "Trusted: Lean kernel; hand models of CPython int()/float() grammar and rounding/repr/Decimal()/format 'f'/binascii/strip/split/"
+    "_strptime (numeric directives %Y %m %d %H %M %S %f only) and glibc strftime; XSD lexical grammar transcriptions; the sampling "
+    "correspondence check (repr(float(s)) is compared on all floats with <= 3 significant digits x exponents -330..310 in the thorough tier). "
+    "Aware datetimes (%z), named-month/weekday directives and locale-dependent formats are outside the model."
 )
